@@ -93,10 +93,27 @@ pub open spec fn item_edges(it: &Item, ctx: &BindgenContext) -> Edges {
 MI = {"impl": r"^impl Method$", "impl_header": "impl Method", "impl_name": "Method"}
 GEN = [("<T>(", "<T: Tracer>(", 1, "where clause inlined"), ("where T: Tracer,", "", 1, "where clause inlined")]
 
+DEPS_ENV = """
+// ---- generate_dependencies: what is traced for one allowlisted item
+impl BindgenContext {
+    pub uninterp spec fn s_item(&self, id: ItemId) -> Item;
+    #[verifier::external_body] pub fn resolve_item(&self, id: ItemId) -> (r: &Item) ensures *r == self.s_item(id) { unimplemented!() }
+}
+impl Item {
+    #[verifier::external_body] pub fn as_type(&self) -> (r: Option<&Type>)
+        ensures match self.s_kind() { ItemKind::Type(ty) => r.is_some() && *r.unwrap() == ty, _ => r.is_none() } { unimplemented!() }
+}
+impl ItemId {
+    // <T: Copy + Into<ItemId> as Trace>::trace: `ctx.resolve_item((*self).into()).trace(ctx, tracer, extra)` (Item::trace is verified above)
+    #[verifier::external_body] pub fn trace<T: Tracer>(&self, ctx: &BindgenContext, tracer: &mut T, extra: &())
+        ensures final(tracer).log() == old(tracer).log() + item_edges(&ctx.s_item(*self), ctx) { unimplemented!() }
+}
+"""
+
 UNIT = {
     "name": "trace_impls",
     "env": [os.path.join(ENV, "trace_impls_env.rs")],
-    "declared_trusted": {r"external_body": 37},
+    "declared_trusted": {r"external_body": 40},
     "items": [
         {"kind": "enum", "file": TV, "name": "EdgeKind", "prefix": "#[derive(Copy, Clone, PartialEq, Eq, Structural)]"},
         {"kind": "enum", "file": FN, "name": "Abi", "prefix": "#[derive(Copy, Clone, PartialEq, Eq, Structural)]"},
@@ -238,5 +255,16 @@ UNIT = {
         {"kind": "fn", "file": "bindgen/ir/item.rs", "name": "trace", "impl": r"^impl Trace for Item$", "impl_header": "impl Item", "impl_name": "Item",
          "subst": GEN + [("fun.signature().into()", "fun.signature().item()", 1, "R12"), ("var.ty().into()", "var.ty().item()", 1, "R12")],
          "ensures": ["final(tracer).log() == old(tracer).log() + item_edges(self, ctx)"]},
+        # generate_dependencies (analysis/mod.rs): the statements that trace one allowlisted item for the dependency map.
+        # READ-SET COVERAGE (C07): the analyses' constrain functions look INSIDE opaque types (an opaque alias has the
+        # destructor / floats of what it names), so the edges of a type item must be recorded whether it is opaque or not
+        {"kind": "raw", "label": "deps_env", "text": DEPS_ENV},
+        {"kind": "fn", "file": "bindgen/ir/analysis/mod.rs", "name": "trace_item_for_dependencies", "ret": "r_unit",
+         "closure": {"enclosing": "generate_dependencies", "anchor": "item.trace(ctx, record, &());", "nth": 0, "stmt": "rest",
+                     "signature": "fn trace_item_for_dependencies<T: Tracer>(ctx: &BindgenContext, item: ItemId, record: &mut T)",
+                     "prefix": "{", "suffix": "}"},
+         "ensures": [
+             "final(record).log() == old(record).log() + (match ctx.s_item(item).s_kind() { ItemKind::Type(ty) => type_edges(&ty, ctx, &ctx.s_item(item)), _ => item_edges(&ctx.s_item(item), ctx) })",
+         ]},
     ],
 }
